@@ -68,7 +68,9 @@ Record frame_ok (fr : frame) (pr : promise) (below : list zframe) : Prop := {
   (* the uses made in the parameter list (the first NumArgUses entries) are never declared in this scope *)
   K_narg : (fnarg fr <= length (fund fr))%nat /\
            forall y, In (UPend y) (firstn (fnarg fr) (fund fr)) -> ~ In y (pnames pr) ;
-  K_fid : forall g, In g below -> (fid (fst g) < fid fr)%nat
+  K_fid : forall g, In g below -> (fid (fst g) < fid fr)%nat ;
+  (* only block scopes are loop scopes *)
+  K_for : fisfunc fr = true -> fnfor fr = O
 }.
 
 Fixpoint frames_ok (z : list zframe) : Prop :=
@@ -123,7 +125,7 @@ Qed.
 
 Lemma frame_ok_shape fr pr below below' : shape below = shape below' -> frame_ok fr pr below -> frame_ok fr pr below'.
 Proof.
-  intros Hs [K1 K2 K3 K4 K5 K6 K7 K8]. constructor; try assumption.
+  intros Hs [K1 K2 K3 K4 K5 K6 K7 K8 K9]. constructor; try assumption.
   - intros y fs Hy. destruct (K4 y fs Hy) as [Hf Hp]. split; [exact Hf|].
     apply (pass_ok_shape y fs ((fr, pr) :: below)); [cbn; f_equal; exact Hs|exact Hp].
   - intros g Hg. apply shape_fids in Hs.
@@ -258,7 +260,7 @@ Proof.
       exists (mkA (fr' :: map fst rest) (anext a) (LPend (fid fr) x :: alog a)), fr', (LPend (fid fr) x).
       split; [reflexivity|]. split.
       { constructor; [reflexivity| | |].
-        - split; [|exact Krest]. destruct Kf as [K1 K2 K3 K4 K5 K6 K7 K8]. constructor; try assumption.
+        - split; [|exact Krest]. destruct Kf as [K1 K2 K3 K4 K5 K6 K7 K8 K9]. constructor; try assumption.
           + intros y Hy. cbn [fund fr' set_fund] in Hy. apply in_app_last in Hy. destruct Hy as [Hy|Hy]; [apply K3; exact Hy|].
             inversion Hy; subst. apply a_find_decl_none. exact Ed.
           + intros y fs Hy. cbn [fund fr' set_fund] in Hy. apply in_app_last in Hy. destruct Hy as [Hy|Hy]; [|discriminate].
@@ -283,10 +285,10 @@ Qed.
 Lemma L_enter a z f pr :
   AInv a z -> (forall y, In y (plex pr) -> ~ In y (pvar pr)) ->
   exists a', a_enter a f = ARun a' /\
-    AInv a' ((mkF (anext a) f [] [] O, pr) :: z) /\ alog a' = alog a /\ anext a' = S (anext a).
+    AInv a' ((mkF (anext a) f [] [] O O, pr) :: z) /\ alog a' = alog a /\ anext a' = S (anext a).
 Proof.
   intros [As Af An Al] Hdisj.
-  exists (mkA (mkF (anext a) f [] [] O :: astack a) (S (anext a)) (alog a)).
+  exists (mkA (mkF (anext a) f [] [] O O :: astack a) (S (anext a)) (alog a)).
   split; [reflexivity|]. split; [|split; reflexivity].
   constructor.
   - cbn. rewrite As. reflexivity.
@@ -299,6 +301,7 @@ Proof.
     + constructor.
     + split; [lia|intros y []].
     + intros g Hg. apply An. exact Hg.
+    + intros _. reflexivity.
   - intros fp [<-|H]; cbn; [lia|]. specialize (An fp H). lia.
   - intros s x H. destruct (Al s x H) as (fp & H1 & H2 & H3). exists fp. split; [right; exact H1|]. split; assumption.
 Qed.
@@ -312,11 +315,34 @@ Lemma L_mark a fr pr rest :
     alog a' = alog a /\ anext a' = anext a.
 Proof.
   intros [As Af An Al] Hf. destruct Af as [Kf Krest]. unfold a_mark_args. rewrite As. cbn [map fst].
-  set (fr' := mkF (fid fr) (fisfunc fr) (fdecl fr) (fund fr) (length (fund fr))).
+  set (fr' := mkF (fid fr) (fisfunc fr) (fdecl fr) (fund fr) (length (fund fr)) (fnfor fr)).
   exists (mkA (fr' :: map fst rest) (anext a) (alog a)), fr'. split; [reflexivity|]. split.
   { constructor; [reflexivity| | |].
-    - split; [|exact Krest]. destruct Kf as [K1 K2 K3 K4 K5 K6 K7 K8]. constructor; try assumption.
+    - split; [|exact Krest]. destruct Kf as [K1 K2 K3 K4 K5 K6 K7 K8 K9]. constructor; try assumption.
       cbn [fnarg fund fr']. split; [lia|]. rewrite firstn_all. exact Hf.
+    - intros fp [<-|H]; [apply (An (fr, pr)); left; reflexivity|apply An; right; exact H].
+    - intros s y H. destruct (Al s y H) as ([g pg] & Hg & Hs & Hu). destruct Hg as [Eg|Hg].
+      + injection Eg as E1 E2. subst g pg. exists (fr', pr). split; [left; reflexivity|]. split; [exact Hs|exact Hu].
+      + exists (g, pg). split; [right; exact Hg|]. split; assumption. }
+  repeat split; reflexivity.
+Qed.
+
+(* ---- MarkForStmt (a block scope): as MarkFuncArgs, and the declarations made so far are the loop head's ----- *)
+Lemma L_mark_for a fr pr rest :
+  AInv a ((fr, pr) :: rest) -> fisfunc fr = false -> (forall y, In (UPend y) (fund fr) -> ~ In y (pnames pr)) ->
+  exists a' fr',
+    a_mark_for a = ARun a' /\ AInv a' ((fr', pr) :: rest) /\
+    fid fr' = fid fr /\ fisfunc fr' = fisfunc fr /\ fdecl fr' = fdecl fr /\ fund fr' = fund fr /\
+    fnfor fr' = length (fdecl fr) /\
+    alog a' = alog a /\ anext a' = anext a.
+Proof.
+  intros [As Af An Al] Hblock Hf. destruct Af as [Kf Krest]. unfold a_mark_for. rewrite As. cbn [map fst].
+  set (fr' := mkF (fid fr) (fisfunc fr) (fdecl fr) (fund fr) (length (fund fr)) (length (fdecl fr))).
+  exists (mkA (fr' :: map fst rest) (anext a) (alog a)), fr'. split; [reflexivity|]. split.
+  { constructor; [reflexivity| | |].
+    - split; [|exact Krest]. destruct Kf as [K1 K2 K3 K4 K5 K6 K7 K8 K9]. constructor; try assumption.
+      + cbn [fnarg fund fr']. split; [lia|]. rewrite firstn_all. exact Hf.
+      + cbn [fisfunc fr']. intros E. congruence.
     - intros fp [<-|H]; [apply (An (fr, pr)); left; reflexivity|apply An; right; exact H].
     - intros s y H. destruct (Al s y H) as ([g pg] & Hg & Hs & Hu). destruct Hg as [Eg|Hg].
       + injection Eg as E1 E2. subst g pg. exists (fr', pr). split; [left; reflexivity|]. split; [exact Hs|exact Hu].
